@@ -1,5 +1,5 @@
 /- L0 facts about the accessors, Display and Default of Maximum (split from Lemmas/Maximum.lean so that a change to one method only invalidates the facts about that method) -/
-import TaRs.Lemmas.Maximum
+import TaRs.Lemmas.Core.Maximum
 set_option linter.unusedSectionVars false
 namespace TaRs.Gen.Maximum
 open TaRs TaRs.Rs
